@@ -166,6 +166,27 @@ MUTATIONS = [
      "what": "Identification.from_expression uses the query expression itself as the starting estimand when none is given (interventional term carried into the result)",
      "old": "            query=Query.from_expression(query),\n            graph=graph,\n            estimand=estimand,",
      "new": "            query=Query.from_expression(query),\n            graph=graph,\n            estimand=query if estimand is None else estimand,"},
+    # ---------------------------------------------------------------- canonicalize(expr, ordering) (C10, C11)
+    {"id": "mcan_validate_then_normalise", "props": ["C10", "C11"], "file": DSL,
+     "what": "ensure_ordering type-checks the elements of the ordering before _upgrade_ordering: a one-shot ordering is consumed",
+     "old": "    if ordering is not None:\n        return _upgrade_ordering(ordering)",
+     "new": "    if ordering is not None:\n        if any(not isinstance(v, str | Variable) for v in ordering):\n            raise TypeError(\"ordering must hold names or variables\")\n        return _upgrade_ordering(ordering)"},
+    {"id": "mcan_sorted_before_upgrade", "props": ["C10", "C11"], "file": DSL,
+     "what": "_upgrade_ordering de-duplicates and sorts before upgrading str names to Variables: sorted() of mixed str / Variable",
+     "old": "    return _sorted_variables(set(_upgrade_variables(variables)))",
+     "new": "    if isinstance(variables, str | Variable):\n        return _upgrade_variables(variables)\n    return _sorted_variables(_upgrade_variables(sorted(set(variables))))"},
+    {"id": "mcan_str_names_not_upgraded", "props": ["C10", "C11"], "file": DSL,
+     "what": "ensure_ordering only sorts the given ordering by name (str names are no longer upgraded to Variables)",
+     "old": "    if ordering is not None:\n        return _upgrade_ordering(ordering)",
+     "new": "    if ordering is not None:\n        return tuple(sorted(set(ordering), key=lambda v: v if isinstance(v, str) else v.name))"},
+    {"id": "mcan_keyword_renamed", "props": ["C10", "C11"], "file": CAN,
+     "what": "canonicalize: parameter ordering renamed to order (keyword callers break)",
+     "old": "    expression: Expression, ordering: Sequence[str | Variable] | None = None\n) -> Expression:",
+     "new": "    expression: Expression, order: Sequence[str | Variable] | None = None\n) -> Expression:\n    ordering = order"},
+    {"id": "mcan_len_of_ordering", "props": ["C10", "C11"], "file": CAN,
+     "what": "canonicalize short-cuts an empty ordering with len(): one-shot iterables and dict views behave differently",
+     "old": "    canonicalizer = Canonicalizer(ensure_ordering(expression, ordering=ordering))",
+     "new": "    if ordering is not None and len(ordering) == 0:\n        ordering = None\n    canonicalizer = Canonicalizer(ensure_ordering(expression, ordering=ordering))"},
 ]
 
 
